@@ -11,7 +11,7 @@
    Every event is judged by the Reference clauses of Positions.tla.                         *)
 EXTENDS Naturals, Sequences, FiniteSets, TLC, Json, IOUtils
 
-CONSTANTS TplLo, TplHi, SecondTpls, MaxStmts, MaxMods1, MaxMods2, NNames, EmitMod, EmitRem
+CONSTANTS TplLo, TplHi, SecondTpls, MaxStmts, MaxMods1, MaxMods2, NNames, StripDunder, EmitMod, EmitRem
 VARIABLES stmts, mods, tabs, final, lay, out
 INSTANCE Positions
 
